@@ -109,6 +109,9 @@ def protocol(entries):
             lastseqs.add(shape(la))
         elif g.startswith("uniq:"):
             api = g.split(":")[1]
+            if api in ("get_mut", "try_unwrap") and any(e[0] == "granted" for e in st.get("shared", [])):
+                problems.append("%s grants exclusive access (or hands the value out) although another owner exists" % name)
+                continue
             un = st["unique"]
             cut = next((i for i, e in enumerate(un) if e[0] not in ATOMIC), len(un))
             up = un[:cut]
